@@ -32,7 +32,9 @@ Readings (the weaker one where the statement leaves a choice):
   that is C12's subject), so the C13 sentences are judged by TLC on the stored form seen before the
   call; its names must be the names of the expression (else drift `stored_names`), its value under the
   renamed environment must be the value of the expression.  A text an Equation refuses has nothing
-  to rename and is counted (`route_constructions_refused`).
+  to rename and is counted (`route_constructions_refused`).  Routes shared_block / shared_each hand
+  the Term objects of the text (Equation.ParseString) to two equations of one block and rename through
+  the block / equation after equation: both owners are judged, each must see the map applied once.
 * "name" is what the tokenizer calls NAME.  Names that Python's number constructors also accept as
   the text of a number (inf, nan, NaN, Infinity, INF, j) are names; they occur as the whole expression,
   signed, blank-padded, as keys and images of the map and as bystanders (instances MC_Tokens_words*).
@@ -50,6 +52,7 @@ Readings (the weaker one where the statement leaves a choice):
 Inputs are tokenizable by construction; a rendering that does not tokenize back to the generated
 token sequence is a fault of this check (MachineryError), not of the code under test.
 """
+import concurrent.futures
 import io
 import json
 import re
@@ -67,6 +70,7 @@ LINE_KINDS = ('NL', 'NEWLINE')
 KIND = {tokenize.NAME: 'NAME', tokenize.NUMBER: 'NUMBER', tokenize.OP: 'OP', tokenize.STRING: 'STRING'}
 SKIP = (tokenize.ENCODING, tokenize.ENDMARKER, tokenize.INDENT, tokenize.DEDENT)
 JOBS, MIN_CHUNK = 4, 3000   # few big TLC jobs beat many small ones here (measured: 4 x 11 000 traces 9 s, 15 x 3 000 36 s)
+TLC_JOBS = 3                # behaviour-generating TLC runs in flight
 BATCH = 40000               # behaviours collected over instances before one replay + trace validation round
 INPUT_CLAUSES = ('input_grammar', 'input_tokenization', 'input_value', 'not_ready')
 
@@ -209,31 +213,46 @@ def observe_rename(call, toks, mapping):
 
 
 def observe_via(route, text, toks, lookup):
-    """rename through Equation / EquationBlock; observe the right-hand side before and after"""
+    """rename through Equation / EquationBlock; observe the right-hand side(s) before and after.
+    Routes shared_*: the Term objects of the text are handed to two equations of one block."""
     from sfc_models.equation import Equation, EquationBlock
-    none = {'built': False, 'ok': False, 'pre': [], 'toks': [], 'text': '', 'vok': False, 'vals': [0, 0]}
+    none = {'built': False, 'ok': False, 'pre': [], 'toks': [], 'text': '', 'vok': False, 'vals': [0, 0],
+            'toks2': [], 'vok2': False, 'vals2': [0, 0]}
+    shared = route in ('shared_block', 'shared_each')
     try:
-        eq = Equation('lhs_', '', rhs=text)
         blk = EquationBlock()
-        blk.AddEquation(eq)
-        before = eq.GetRightHandSide()
-        pok, pre = tokens_of(before)
-        if not pok:
-            return dict(none, text='PRE ' + before.replace('\n', '<NL>'))
+        if shared:
+            terms = Equation.ParseString(text)
+            eqs = [Equation('lhs_', '', rhs=terms), Equation('lhs2_', '', rhs=terms)]
+        else:
+            eqs = [Equation('lhs_', '', rhs=text)]
+        for eq in eqs:
+            blk.AddEquation(eq)
+        before = [eq.GetRightHandSide() for eq in eqs]
+        pok, pre = tokens_of(before[0])
+        if not pok or any(b != before[0] for b in before):
+            return dict(none, text='PRE ' + ' | '.join(before).replace('\n', '<NL>'))
     except Exception as e:       # the Equation refuses this text: nothing to rename
         return dict(none, text='REFUSED ' + type(e).__name__)
     try:
-        if route == 'block':
+        if route in ('block', 'shared_block'):
             blk.ReplaceTokensFromLookup(dict(lookup))
         else:
-            eq.ReplaceTokensFromLookup(dict(lookup))
-        after = blk['lhs_'].GetRightHandSide()
+            for eq in eqs:
+                eq.ReplaceTokensFromLookup(dict(lookup))
+        after = [blk[eq.LeftHandSide].GetRightHandSide() for eq in eqs]
     except Exception as e:
         return dict(none, built=True, pre=pre, text='EXC ' + type(e).__name__)
-    ok, got = tokens_of(after)
-    vok, vals = evaluate(after, got, renamed_envs(toks, lookup)) if ok else (False, [0, 0])
-    return {'built': True, 'ok': ok, 'pre': pre, 'toks': got, 'text': after.replace('\n', '<NL>'),
-            'vok': vok, 'vals': vals}
+    envs = renamed_envs(toks, lookup)
+    obs = []
+    for a in after:
+        ok, got = tokens_of(a)
+        vok, vals = evaluate(a, got, envs) if ok else (False, [0, 0])
+        obs.append((ok, got, vok, vals))
+    first, last = obs[0], obs[-1]
+    return {'built': True, 'ok': first[0] and last[0], 'pre': pre, 'toks': first[1],
+            'text': ' | '.join(after).replace('\n', '<NL>'), 'vok': first[2], 'vals': first[3],
+            'toks2': last[1], 'vok2': last[2], 'vals2': last[3]}
 
 
 def execute(beh):
@@ -294,7 +313,7 @@ def first_offender(beh, events):
         src = ev['pre'] if ev['ev'] == 'RenameVia' else toks
         want = [{'kind': 'NAME', 'text': m[t['text']]} if t['kind'] == 'NAME' and t['text'] in m else t
                 for t in src]
-        if not ev['ok'] or ev['toks'] != want:
+        if not ev['ok'] or ev['toks'] != want or (ev['ev'] == 'RenameVia' and ev['toks2'] != want):
             return ev
     return events[1] if len(events) > 1 else events[0]
 
@@ -320,7 +339,9 @@ def signature(clause, beh, events):
         if real and len(real) < len(m):
             shape += '+identity'
         fn = 'replace_token_from_lookup' if act['kind'] == 'Rename' else \
-            {'equation': 'Equation.ReplaceTokensFromLookup', 'block': 'EquationBlock.ReplaceTokensFromLookup'}.get(
+            {'equation': 'Equation.ReplaceTokensFromLookup', 'block': 'EquationBlock.ReplaceTokensFromLookup',
+             'shared_block': 'EquationBlock.ReplaceTokensFromLookup:shared-terms',
+             'shared_each': 'Equation.ReplaceTokensFromLookup:shared-terms'}.get(
                 act.get('route'), 'via-' + str(act.get('route')))
         if act['kind'] == 'RenameVia':
             toks = ev.get('pre') or toks          # the stored form is what the call had to rename
@@ -336,6 +357,12 @@ def signature(clause, beh, events):
         text = render(toks, ev.get('sp') or 'dense') or ''
         return '%s:%s:no-expression-returned%s' % (fn, shape, ':multi-line-input' if '\n' in text else '')
     got = ev.get('toks', [])
+    if act['kind'] == 'RenameVia' and ev.get('toks2') != got:
+        # the two owners of the same Term objects ended up different: report the one that is not the image
+        want = [{'kind': 'NAME', 'text': dict(m)[t['text']]} if t['kind'] == 'NAME' and t['text'] in dict(m) else t
+                for t in toks]
+        fn += ':owners-differ'
+        got = ev['toks2'] if got == want else got
     if len(got) != len(toks):
         return '%s:%s:token-%s' % (fn, shape, 'dropped' if len(got) < len(toks) else 'added')
     mm = dict(m)
@@ -459,16 +486,22 @@ def run(rep):
     rep.exhaustive = True
     seen = set()
     pending = []
-    for cfg, simulate in INSTANCES[rep.tier]:
+    def generate(inst):
+        cfg, simulate = inst
         if simulate:
-            res = core.tlc('MC_Tokens', cfg, workers=1, tag='c13', simulate=simulate, depth=24, seed=rep.seed)
+            return core.tlc('MC_Tokens', cfg, workers=1, tag='c13', simulate=simulate, depth=24, seed=rep.seed)
+        return core.tlc('MC_Tokens', cfg, workers=1, tag='c13')
+
+    # the TLC runs are independent: three at a time (each is dominated by JVM start on the small instances)
+    pool = concurrent.futures.ThreadPoolExecutor(max_workers=TLC_JOBS)
+    results = pool.map(generate, INSTANCES[rep.tier])
+    for (cfg, simulate), res in zip(INSTANCES[rep.tier], results):
+        if simulate:
             m = re.search(r'The number of states generated: (\d+)', res.stdout)
             if m:       # -simulate reports generated states only (no distinct-state count)
                 res.states = int(m.group(1))
             rep.exhaustive = False
             rep.extra['simulated_traces'] = simulate
-        else:
-            res = core.tlc('MC_Tokens', cfg, workers=1, tag='c13')
         if res.violated:
             raise core.MachineryError('spec invariant %s violated in %s' % (res.violated, cfg))
         rep.add_tlc(res, ('simulate ' if simulate else 'exhaustive ') + cfg)
@@ -486,6 +519,7 @@ def run(rep):
             pending = []
     if pending:
         judge(rep, pending)
+    pool.shutdown()
 
 
 def replay(path):
